@@ -187,7 +187,7 @@ func runC29(c *fw.Ctx) {
 	}
 	c.Bound("scenarios", names)
 	c.SetRule("23 porcelain scenarios (checkout / checkout -b / reset merge|keep|hard / commit / add / restore / merge / pull, each engineered to be refused, plus successful counterparts) on a git-written repository over mcfs; each is run (a) as is and (b) once per filesystem call of the operation with that call failing (EIO; every mutating call and every open/stat of a worktree file): whenever the call returns an error, HEAD, every reference, the decoded index and the content of every tracked worktree file are compared with the state before the call; distinct = (scenario, fault site, outcome) classes")
-	c.Assume("single injected fault per run; objects written before a failure are not part of the statement (only HEAD, branches, index, tracked files)")
+	c.Assume("one injected fault per run (thorough: also every pair of faults for operations with <= 60 fault sites); objects written before a failure are not part of the statement (only HEAD, branches, index, tracked files)")
 	type job struct {
 		si    int
 		fault int // -1 none
@@ -223,6 +223,14 @@ func runC29(c *fw.Ctx) {
 		for f := 0; f < n; f++ {
 			jobs = append(jobs, job{si, f})
 		}
+		if c.Thorough() && n <= 60 {
+			// bounded deviations: two injected faults (the second one hits a later call, e.g. inside an error path)
+			for f1 := 0; f1 < n; f1++ {
+				for f2 := f1 + 1; f2 < n+4; f2++ {
+					jobs = append(jobs, job{si, 1000000 + f1*1000 + f2})
+				}
+			}
+		}
 	}
 	c.States(len(scenarios))
 	c.ParDo(len(jobs), 0, func(i int) {
@@ -240,11 +248,19 @@ func runC29(c *fw.Ctx) {
 		site := "no fault"
 		if j.fault >= 0 {
 			n := 0
+			f1, f2 := j.fault, -1
+			if j.fault >= 1000000 {
+				f1, f2 = (j.fault-1000000)/1000, (j.fault-1000000)%1000
+			}
 			w.SetHook(func(op *mcfs.Op) error {
 				if c20FaultSite(op) {
-					if n == j.fault {
+					if n == f1 || n == f2 {
 						n++
-						site = "EIO at " + op.Kind + " of " + fileClass(op.Path)
+						if site == "no fault" {
+							site = "EIO at " + op.Kind + " of " + fileClass(op.Path)
+						} else {
+							site += " and at " + op.Kind + " of " + fileClass(op.Path)
+						}
 						return syscall.EIO
 					}
 					n++
